@@ -61,7 +61,8 @@ def gen_plan(prop, seed, tier):
     ops = []
     ncreate = rng.randint(1, 3)
     for i in range(ncreate):
-        layout = rng.choice(["independent", "independent", "shared-kv", "shared-all", "copy", "deepcopy"]) if i > 0 else "independent"
+        layout = rng.choice(["independent", "independent", "shared-kv", "shared-all", "copy", "deepcopy", "elevated-line"]) if i > 0 else \
+            rng.choice(["independent", "independent", "independent", "elevated-line"])
         rational = rng.random() < 0.4
         ops.append({"op": "create", "layout": layout, "src": rng.randrange(8),
                     "spec": gen_spec(rng, cls, 2, rational), "noctrl": rng.random() < 0.05})
@@ -77,7 +78,7 @@ def gen_plan(prop, seed, tier):
             continue
         ops.append(op)
         if rng.random() < 0.08:
-            ops.append({"op": "create", "layout": rng.choice(["shared-kv", "shared-all", "copy", "deepcopy", "independent"]),
+            ops.append({"op": "create", "layout": rng.choice(["shared-kv", "shared-all", "copy", "deepcopy", "independent", "elevated-line"]),
                         "src": rng.randrange(8), "spec": gen_spec(rng, cls, 2, rng.random() < 0.4), "noctrl": False})
     return {"property": prop, "engine": "curve", "seed": seed, "tier": tier, "config": cfg, "ops": ops}
 
@@ -285,6 +286,19 @@ class CurveEngine:
                 self.remember(pts)
                 new = self.Curve(kvobj, pts, ws)
                 ctx.probe("layout-" + layout)
+            elif layout == "elevated-line":
+                # a straight segment or polyline whose degree was raised by the library: every Bezier piece is reducible,
+                # so a "non-mutating" operation that cleans its pieces must not be working on the operand itself
+                ks = [M.dec(k) for k in spec["knots"]]
+                L = [self.num(ks[0])] * 2 + [self.num(k) for k in ks[1:-1]] + [self.num(ks[-1])] * 2
+                base = [M.dec(x) for x in spec["pts"][0]]
+                step = [M.dec(x) for x in spec["pts"][-1]]
+                if all(v == 0 for v in step):
+                    step = [Fraction(1), Fraction(2)]
+                pts = [self.mkpoint([b + (j + (j * j if j % 2 else 0)) * d for b, d in zip(base, step)]) for j in range(len(ks))]
+                new = self.Curve(L, pts)
+                new.degree_increase(1 + spec["p"] % 2)
+                ctx.probe("layout-elevated-line")
             else:
                 L = self.knots_of(spec)
                 pts = None if op.get("noctrl") else [self.mkpoint(c) for c in spec["pts"]]
@@ -402,6 +416,33 @@ class CurveEngine:
             return v
         return M.Fr(a) + (M.Fr(b) - M.Fr(a)) * t
 
+    def polyline_like(self, curve):
+        """Geometrically a polyline with segments of non-zero length (whatever its degree): every span's samples lie on the
+        chord between the span's end points.  Decided with the exact model on the curve's current values."""
+        st = self.alpha(curve)
+        if st is None or st[2] is not None or not isinstance(st[1][0], tuple):
+            return False
+        ks = M.kv_knots(st[0])
+        if len(ks) > 6:
+            return False
+        try:
+            for a, b in zip(ks, ks[1:]):
+                pa, pb = M.curve_eval(st, a), M.curve_eval(st, b)
+                if b == ks[-1]:
+                    pb = M.curve_eval(st, b)
+                chord = [y - x for x, y in zip(pa, pb)]
+                if sum(float(c) ** 2 for c in chord) < 1e-6:
+                    return False
+                for t in (Fraction(1, 3), Fraction(3, 4)):
+                    pm = M.curve_eval(st, a + (b - a) * t)
+                    if any(abs(float(m - (x + t * c))) > 1e-9 for m, x, c in zip(pm, pa, chord)):
+                        return False
+                if a != ks[0] and M.kv_mult(st[0], a) > M.kv_degree(st[0]):
+                    return False
+        except (ZeroDivisionError, ValueError):
+            return False
+        return True
+
     def prepare(self, ctx, kind, a, b, faulty, rng):
         """Returns (callable, receiver or None, invalid?, label)."""
         np = self.np
@@ -467,8 +508,11 @@ class CurveEngine:
             if faulty:
                 t = rng.choice([0, -1, p + 1, p + 3, "1", None])
                 return (lambda: a.degree_decrease(t)), a, True, "degree_decrease"
-            tol = rng.choice([1e-9, None, 1e-3])
-            return (lambda: a.degree_decrease(1, tol)), a, p == 0, "degree_decrease"
+            tol = rng.choice([1e-9, 1e-9, None, 1e-3])
+            t = rng.choice([1, 1, 2, 2, 3])      # multi-degree reductions: the first degree may be feasible, the next not
+            if t > max(p, 1):
+                t = max(p, 1)
+            return (lambda: a.degree_decrease(t, tol)), a, p == 0, "degree_decrease"
         if kind in COMPOSITE:
             if (not has and a.weights is None) or (a.weights is not None and (p > 2 or a.npts > 5)):
                 return None, None, False, kind
@@ -566,7 +610,7 @@ class CurveEngine:
                 val = rng.choice([-1, "2", 2.5, None, p + 40 if False else -3])
                 inv = True
             else:
-                val = p + rng.choice([1, 1, -1, 2, 0])
+                val = p + rng.choice([1, 1, -1, -1, -2, -2, 2, 0])
                 inv = val < 0
                 if val > p and a.npts + (val - p) * (len(ks) - 1) > 14:
                     return None, None, False, kind
@@ -706,21 +750,16 @@ class CurveEngine:
             return (lambda: fn(a, g, method)), None, faulty, "Integrate." + what
         if kind == "project":
             # only straight polylines of float points: Newton's iteration is exact there (the search has no step bound)
-            if not has or p != 1 or a.weights is not None or self.cfg["profile"] != "fvec":
-                return None, None, False, kind
-            try:
-                cps = [tuple(float(x) for x in pt) for pt in a.ctrlpoints]
-            except TypeError:
-                return None, None, False, kind
-            degenerate = any(u == v for u, v in zip(cps, cps[1:])) or len(cps) != len(ks)
-            if degenerate:
+            if not has or a.weights is not None or self.cfg["profile"] != "fvec" or not self.polyline_like(a):
                 return None, None, False, kind   # zero-length segment or jump: Newton divides 0/0 and span(nan) never returns
             pt = (float(rng.randint(-9, 9)), float(rng.randint(-9, 9)) + 0.5)
             return (lambda: lib.Projection.point_on_curve(pt, a)), None, False, "Projection"
         if kind == "intersect":
             if not has or b.ctrlpoints is None or self.cfg["profile"] != "fvec" or a is b:
                 return None, None, False, kind
-            if a.weights is not None or b.weights is not None or a.degree > 2 or b.degree > 2 or a.npts > 4 or b.npts > 4:
+            if a.weights is not None or b.weights is not None:
+                return None, None, False, kind
+            if not (self.polyline_like(a) and self.polyline_like(b)) and (a.degree > 2 or b.degree > 2 or a.npts > 4 or b.npts > 4):
                 return None, None, False, kind
             return (lambda: lib.Intersection.curve_and_curve(a, b)), None, False, "Intersection"
         if kind == "str":
